@@ -1,8 +1,10 @@
 package proxy
 
 import (
+	"bytes"
 	"crypto/tls"
 	"fmt"
+	"io/ioutil"
 	"net"
 	"net/http"
 	"net/http/httputil"
@@ -200,6 +202,19 @@ func deleteCookieHandler(handler http.Handler, cookieName string) http.Handler {
 // newSigningHandler creates middleware that signs requests using the configured signing method.
 func newSigningHandler(handler http.Handler, config *UpstreamConfig, signer *RequestSigner) http.Handler {
 	return http.HandlerFunc(func(rw http.ResponseWriter, req *http.Request) {
+		// Read the body once before anything is signed: the HMAC signer re-buffers whatever it could read
+		// and drops the error, so a body that cannot be read must be stopped here.
+		if req.Body != nil && (config.HMACAuth != nil || signer != nil) {
+			body, err := ioutil.ReadAll(req.Body)
+			if err != nil {
+				logger := log.NewLogEntry()
+				logger.WithRequestHost(req.Host).Error(err, "unable to read request body for signing")
+				http.Error(rw, http.StatusText(http.StatusBadRequest), http.StatusBadRequest)
+				return
+			}
+			req.Body = ioutil.NopCloser(bytes.NewBuffer(body))
+		}
+
 		if config.HMACAuth != nil {
 			config.HMACAuth.SignRequest(req)
 		}
